@@ -177,11 +177,100 @@ Section Msg.
   Proof.
     unfold pkesk_decrypt_sk. destruct (a =? 1) eqn:A1.
     - apply Z.eqb_eq in A1. destruct c as [v| | |]; try discriminate.
-      destruct (rsa_decrypt_m rsa_bits rsa_dec (k_fp k) v) as [m|] eqn:R; cbn [bind]; [|discriminate].
+      destruct (rsa_decrypt_m rsa_bits rsa_dec (k_fp k) v) as [m|] eqn:R; cbn [bind ct_guard]; [|discriminate].
       intros O. exists m. split; [exact O|]. left. eauto.
     - destruct (a =? 18) eqn:A2; [|discriminate]. apply Z.eqb_eq in A2. destruct c as [|xy w| |]; try discriminate.
-      destruct (ecdh_decrypt_m ecdh_shared hash aes_unwrap k xy w) as [m|] eqn:R; cbn [bind]; [|discriminate].
+      destruct (ecdh_decrypt_m ecdh_shared hash aes_unwrap k xy w) as [m|] eqn:R; cbn [bind ct_guard]; [|discriminate].
       intros O. exists m. split; [exact O|]. right. eauto.
+  Qed.
+
+  (* what leaves decrypt_sk when it does not return a session key (repair 774c7db): PGPDecryptionError for every failure of
+     the primitives, of the unpadding and of the tail; besides that only NotImplementedError (an algorithm that is neither
+     RSA nor ECDH, a KDF cipher without a key size), TypeError (ciphertext fields of the other algorithm) and the
+     IndexError of an EMPTY unwrapped string *)
+  Lemma ecdh_decrypt_m_raise_kinds k xy w e :
+    ecdh_decrypt_m ecdh_shared hash aes_unwrap k xy w = Raise e ->
+    e = EPrim \/ e = EDecrypt \/ (e = ENotImpl /\ key_octets (k_kdf_enc k) = None) \/
+    (e = EIndex /\ exists z, aes_unwrap z w = Some []).
+  Proof.
+    unfold ecdh_decrypt_m. destruct (ecdh_shared (k_fp k) xy) as [sh|]; cbn [of_opt bind]; [|intros [= <-]; auto].
+    unfold ecdh_kek. destruct (key_octets (k_kdf_enc k)) as [n|] eqn:KO; cbn [bind]; [|intros [= <-]; auto].
+    destruct (ecdh_kdf hash (k_kdf_hash k) sh n _) as [z|]; cbn [of_opt bind]; [|intros [= <-]; auto].
+    destruct (aes_unwrap z w) as [mp|] eqn:U; cbn [of_opt bind]; [|intros [= <-]; auto].
+    unfold ecdh_unpad. destruct mp as [|x mp]; [intros [= <-]; right; right; right; eauto|].
+    destruct (pkcs5_unpad (x :: mp)); cbn [of_opt]; [discriminate|intros [= <-]; auto].
+  Qed.
+
+  Theorem pkesk_decrypt_sk_raise_kinds k a c e :
+    PKDEC k a c = Raise e ->
+    e = EDecrypt \/
+    (e = ENotImpl /\ ((a <> 1 /\ a <> 18) \/ (a = 18 /\ key_octets (k_kdf_enc k) = None))) \/
+    (e = EType /\ ((a = 1 /\ forall v, c <> CRsa v) \/ (a = 18 /\ forall xy w, c <> CEcdh xy w))) \/
+    (e = EIndex /\ exists xy w z, c = CEcdh xy w /\ aes_unwrap z w = Some []).
+  Proof.
+    unfold pkesk_decrypt_sk. destruct (a =? 1) eqn:A1.
+    - apply Z.eqb_eq in A1.
+      destruct c as [v| | |]; try (intros [= <-]; right; right; left; split; [reflexivity|left; split; [exact A1|discriminate]]).
+      unfold rsa_decrypt_m. destruct (rsa_dec _ _) as [m|]; cbn [of_opt ct_guard ct_failure bind]; [|intros [= <-]; auto].
+      intros H. apply pkesk_open_reject_kinds in H. auto.
+    - destruct (a =? 18) eqn:A2; [|intros [= <-]; right; left; split; [reflexivity|left; lia]].
+      apply Z.eqb_eq in A2.
+      destruct c as [|xy w| |]; try (intros [= <-]; right; right; left; split; [reflexivity|right; split; [exact A2|discriminate]]).
+      destruct (ecdh_decrypt_m ecdh_shared hash aes_unwrap k xy w) as [m|x] eqn:D; cbn [ct_guard bind].
+      + intros H. apply pkesk_open_reject_kinds in H. auto.
+      + intros [= <-]. apply ecdh_decrypt_m_raise_kinds in D.
+        destruct D as [->|[->|[[-> KO]|[-> [z U]]]]]; cbn [ct_failure]; auto.
+        * right. left. split; [reflexivity|]. right. split; assumption.
+        * right. right. right. split; [reflexivity|]. eauto.
+  Qed.
+
+  (* ... hence, for a PKESK whose fields belong to its algorithm, a key with a usable KDF cipher and a key unwrap that
+     never returns the empty string (RFC 3394 output is at least 16 octets), EVERY failure is PGPDecryptionError *)
+  Theorem pkesk_decrypt_sk_failure_is_decrypt k a c e :
+    (forall z w, aes_unwrap z w <> Some []) ->
+    (a = 1 /\ exists v, c = CRsa v) \/ (a = 18 /\ (exists xy w, c = CEcdh xy w) /\ key_octets (k_kdf_enc k) <> None) ->
+    PKDEC k a c = Raise e -> e = EDecrypt.
+  Proof.
+    intros NE W H. apply pkesk_decrypt_sk_raise_kinds in H.
+    destruct H as [H|[[-> H]|[[-> H]|[-> [xy [w [z [-> U]]]]]]]]; [exact H| | |].
+    - destruct W as [[-> _]|[-> [_ KO]]]; destruct H as [[H1 H2]|[H1 H2]]; congruence.
+    - destruct W as [[-> [v ->]]|[-> [[xy [w ->]] _]]]; destruct H as [[H1 H2]|[H1 H2]]; try lia.
+      + exfalso. eapply H2. reflexivity.
+      + exfalso. eapply H2. reflexivity.
+    - exfalso. eapply NE. exact U.
+  Qed.
+
+  (* a session key packet that names the key id under another algorithm id: PGPError (it was StopIteration) *)
+  Lemma key_decrypt_leaf_no_match k es ct : find (pk_for k) es = None -> LEAF k es ct = Raise EPGP.
+  Proof. intros F. unfold key_decrypt_leaf. rewrite F. reflexivity. Qed.
+  Theorem key_decrypt_leaf_old_refuted k id a c ct :
+    a <> k_alg k ->
+    key_decrypt_leaf_old sha1 cfb_dec rsa_bits rsa_dec ecdh_shared hash aes_unwrap k [PK id a c] ct = Raise EStopIter /\
+    LEAF k [PK id a c] ct = Raise EPGP.
+  Proof.
+    intros H. unfold key_decrypt_leaf_old, key_decrypt_leaf. cbn [find pk_for].
+    destruct (a =? k_alg k) eqn:E; [lia|]. cbn [andb]. auto.
+  Qed.
+
+  (* session key packets without an encrypted data packet: a message cut short, refused with PGPError (repair b46a5dd; the
+     input object used to be handed back as if it were the plaintext) *)
+  Theorem key_decrypt_no_data_raises holder es : es <> [] -> KDEC holder (es, None) = Raise EPGP.
+  Proof. intros H. unfold key_decrypt. cbn [fst snd]. destruct es; [contradiction|reflexivity]. Qed.
+
+  (* every way PGPKey.decrypt fails on a message that has an encrypted data packet *)
+  Theorem key_decrypt_failure_kinds holder es ct x :
+    KDEC holder (es, Some ct) = Raise x ->
+    x = EDecrypt \/ x = EPGP \/ x = ENotImpl \/ x = EType \/ x = EIndex \/ x = EPrim.
+  Proof.
+    assert (L : forall k, LEAF k es ct = Raise x -> x = EDecrypt \/ x = EPGP \/ x = ENotImpl \/ x = EType \/ x = EIndex \/ x = EPrim).
+    { intros k H. unfold key_decrypt_leaf in H. destruct (find (pk_for k) es) as [[id a c|? ? ?]|]; try (injection H as <-; auto).
+      destruct (PKDEC k a c) as [[alg key]|y] eqn:D; cbn [bind fst snd] in H.
+      - apply seipd_reject_kinds in H. destruct H as [->|[-> _]]; auto 10.
+      - injection H as <-. apply pkesk_decrypt_sk_raise_kinds in D.
+        destruct D as [->|[[-> _]|[[-> _]|[-> _]]]]; auto 10. }
+    unfold key_decrypt. cbn [fst snd].
+    destruct (id_in (k_id (fk_key holder)) (encrypters es)); [apply L|].
+    destruct (find _ (fk_subs holder)) as [s|]; [apply L|]. intros [= <-]. auto.
   Qed.
 
   Theorem decrypt_wrong_recipient_raises holder es ct :
@@ -222,7 +311,7 @@ Section Msg.
       destruct (rsa_ok _ _ _ _ R) as [W [Lc [Bits D]]].
       unfold pkesk_decrypt_sk. cbn [Z.eqb Pos.eqb]. unfold rsa_decrypt_m, bytes_to_int.
       rewrite <- Lc. rewrite rsa_ct_restore; [|exact W|reflexivity|].
-      + rewrite D. cbn [of_opt bind]. exact OPEN.
+      + rewrite D. cbn [of_opt ct_guard bind]. exact OPEN.
       + pose proof (Z.div_mod (rsa_bits (k_fp k)) 8 ltac:(lia)). pose proof (Z.mod_pos_bound (rsa_bits (k_fp k)) 8 ltac:(lia)). lia.
     - destruct (k_alg k =? 18) eqn:A2; [|discriminate].
       apply Z.eqb_eq in A2. unfold ecdh_encrypt_ct in E.
@@ -232,7 +321,33 @@ Section Msg.
       injection E as <-. rewrite A2. eexists. split; [reflexivity|].
       unfold pkesk_decrypt_sk. cbn [Z.eqb Pos.eqb]. unfold ecdh_decrypt_m.
       rewrite (ecdh_ok _ _ _ _ G). cbn [of_opt bind]. rewrite KK. cbn [bind].
-      rewrite (wrap_ok _ _ _ Wr). cbn [of_opt bind]. rewrite pad_unpad. cbn [of_opt bind]. exact OPEN.
+      rewrite (wrap_ok _ _ _ Wr). cbn [of_opt bind]. unfold ecdh_unpad.
+      destruct (pkcs5_pad (pkesk_m alg sk)) as [|x0 pm] eqn:PM.
+      { pose proof (pad_unpad (pkesk_m alg sk)) as PU. rewrite PM in PU. discriminate PU. }
+      rewrite <- PM, pad_unpad. cbn [of_opt ct_guard bind]. exact OPEN.
+  Qed.
+
+  (* a sender that pads m to `total` octets before the key wrap (RFC 6637 section 8: 40) is read back as well *)
+  Lemma pkesk_padded_roundtrip total k seed alg sk n e :
+    sym_valid alg = true -> key_octets alg = Some n -> length sk = n -> Z.of_nat n + 3 < total ->
+    pkesk_encrypt_to ecdh_gen hash aes_wrap total k seed alg sk = Ok e ->
+    exists c, e = PK (k_id k) 18 c /\ PKDEC k 18 c = Ok (alg, sk).
+  Proof.
+    intros V K L T E. unfold pkesk_encrypt_to in E. rewrite K, L, Nat.eqb_refl in E. cbn [negb] in E.
+    assert (OPEN : pkesk_open (pkesk_m alg sk) = Ok (alg, sk)).
+    { rewrite <- (app_nil_r (pkesk_m alg sk)). eapply pkesk_m_roundtrip; eassumption. }
+    destruct (k_alg k =? 18) eqn:A2; [|discriminate]. unfold ecdh_encrypt_ct_to in E.
+    destruct (ecdh_gen (k_fp k) seed) as [[v s]|] eqn:G; cbn [of_opt bind fst snd] in E; [|discriminate].
+    destruct (ecdh_kek hash k s) as [z|] eqn:KK; cbn [bind] in E; [|discriminate].
+    destruct (aes_wrap z (pkcs5_pad_to total (pkesk_m alg sk))) as [c|] eqn:Wr; cbn [of_opt bind] in E; [|discriminate].
+    injection E as <-. eexists. split; [reflexivity|].
+    unfold pkesk_decrypt_sk. cbn [Z.eqb Pos.eqb]. unfold ecdh_decrypt_m.
+    rewrite (ecdh_ok _ _ _ _ G). cbn [of_opt bind]. rewrite KK. cbn [bind].
+    rewrite (wrap_ok _ _ _ Wr). cbn [of_opt bind]. unfold ecdh_unpad.
+    assert (PU : pkcs5_unpad (pkcs5_pad_to total (pkesk_m alg sk)) = Some (pkesk_m alg sk)).
+    { apply unpad_pad_to. rewrite length_pkesk_m by (apply sym_valid_octet; exact V). lia. }
+    destruct (pkcs5_pad_to total (pkesk_m alg sk)) as [|x0 pm] eqn:PM; [discriminate PU|].
+    rewrite PU. cbn [of_opt ct_guard bind]. exact OPEN.
   Qed.
 
   (* encrypt_sk refuses a session key whose length is not the key size of the cipher *)
@@ -253,6 +368,7 @@ Section Msg.
     exists c, e = SK outer sp c /\ SKDEC outer sp c pass = Ok (inner, sk).
   Proof.
     intros V E. unfold skesk_encrypt_gen in E.
+    destruct (key_octets inner) as [n0|]; [|discriminate]. destruct (negb (length sk =? n0)%nat); [discriminate|].
     destruct (s2k_derive s2k outer sp pass) as [k|] eqn:D; cbn [bind] in E; [|discriminate].
     destruct (cfb_enc outer k (int_to_bytes inner 1 ++ sk)) as [c|] eqn:C; cbn [of_opt bind] in E; [|discriminate].
     injection E as <-. exists c. split; [reflexivity|].
@@ -261,6 +377,20 @@ Section Msg.
     pose proof (cfb_len _ _ _ _ C) as Lc. cbn [length] in Lc.
     destruct c as [|c0 c']; [discriminate Lc|].
     rewrite C. cbn [of_opt bind]. rewrite V. reflexivity.
+  Qed.
+
+  (* SKESessionKeyV4.encrypt_sk refuses a session key whose length is not the key size of the cipher (repair 29ef9ad) *)
+  Lemma skesk_encrypt_wrong_length symalg sp pass sk n :
+    key_octets symalg = Some n -> length sk <> n -> SKENC symalg sp pass sk = Raise EEncrypt.
+  Proof.
+    intros K L. unfold skesk_encrypt, skesk_encrypt_gen. rewrite K.
+    destruct (length sk =? n)%nat eqn:E; [apply Nat.eqb_eq in E; contradiction|reflexivity].
+  Qed.
+  Lemma skesk_encrypt_ok_length symalg sp pass sk e :
+    SKENC symalg sp pass sk = Ok e -> exists n, key_octets symalg = Some n /\ length sk = n.
+  Proof.
+    unfold skesk_encrypt, skesk_encrypt_gen. destruct (key_octets symalg) as [n|]; [|discriminate].
+    destruct (length sk =? n)%nat eqn:E; cbn [negb]; [|discriminate]. intros _. exists n. apply Nat.eqb_eq in E. auto.
   Qed.
 
   (* direct mode: without an encrypted session key the S2K output is the session key *)
@@ -292,6 +422,21 @@ Section Msg.
           -- right. eauto.
   Qed.
 
+  (* the order of the API calls does not matter for what is built *)
+  Lemma encrypt_to_parts alg sk iv rs m es ct : ENCTO alg sk iv rs m = Ok (es, Some ct) ->
+    SENC alg sk iv m = Ok ct /\ fold_left (ADD alg sk) rs (Ok []) = Ok es.
+  Proof.
+    unfold encrypt_to. destruct rs as [|r1 rest].
+    - destruct (SENC alg sk iv m) as [ct'|]; cbn [bind]; [|discriminate]. intros E. injection E as <- <-. split; reflexivity.
+    - cbn [fold_left].
+      assert (A : ADD alg sk (Ok []) r1 = bind (ESKOF alg sk r1) (fun e => Ok [e])).
+      { unfold add_recipient. cbn [bind]. destruct (ESKOF alg sk r1); cbn [bind]; [destruct r1; reflexivity|reflexivity]. }
+      rewrite A. destruct (ESKOF alg sk r1) as [e1|]; cbn [bind]; [|discriminate].
+      destruct (SENC alg sk iv m) as [ct'|]; cbn [bind]; [|discriminate].
+      destruct (fold_left (ADD alg sk) rest (Ok [e1])) as [es'|]; cbn [bind]; [|discriminate].
+      intros E. injection E as <- <-. split; reflexivity.
+  Qed.
+
   Section RoundTrip.
     Variables (alg : Z) (sk iv m : bytes) (rs : list recipient) (n : nat) (es : list esk) (ct : bytes).
     Hypothesis Hvalid : sym_valid alg = true.
@@ -303,11 +448,7 @@ Section Msg.
     Let target := m.
 
     Lemma enc_parts : SENC alg sk iv m = Ok ct /\ fold_left (ADD alg sk) rs (Ok []) = Ok es.
-    Proof.
-      unfold encrypt_to in Henc. destruct (SENC alg sk iv m) as [ct'|]; cbn [bind] in Henc; [|discriminate].
-      destruct (fold_left (ADD alg sk) rs (Ok [])) as [es'|]; cbn [bind] in Henc; [|discriminate].
-      injection Henc as -> ->. auto.
-    Qed.
+    Proof. apply encrypt_to_parts. exact Henc. Qed.
 
     Lemma data_ok : SDEC alg sk ct = Ok target.
     Proof.
